@@ -634,6 +634,57 @@ pub fn drive_creep(s: &mut Session, _rng: &mut Rng) {
     }
 }
 
+/// bursts of parameter writes while the envelope holds (sustaining or at rest): 250 .. 260 and 508 .. 516
+/// time writes between the end of one timed phase and the start of the next, with and without ticks in
+/// between, so that a wrapping 8-bit "parameters changed" stamp meets every offset; the phase that follows
+/// must run at ITS time (the times differ by a factor of 8 or more)
+pub fn drive_write_bursts(s: &mut Session, rng: &mut Rng) {
+    let names = ['a', 'd', 'r'];
+    let counts: Vec<u32> = (250..=260).chain(508..=516).collect();
+    for (ci, &n) in counts.iter().enumerate() {
+        for at_rest in [false, true] {
+            let fs = if ci % 2 == 0 { 1000.0f32 } else { 48000.0 };
+            s.start(fs);
+            let t_short = (40.0 / fs as f64) as f32;
+            let t_long = (400.0 / fs as f64) as f32;
+            s.set_time('a', if at_rest { t_long } else { t_short });
+            s.set_time('d', t_short);
+            s.set_time('r', if at_rest { t_short } else { t_long });
+            s.set_sustain(0.5);
+            s.gate_on();
+            s.run_phase(4000);
+            s.run_phase(4000);
+            if at_rest {
+                s.tick();
+                s.gate_off();
+                s.run_phase(4000);
+            }
+            s.tick();
+            // the burst: the values written do not matter (each time is written back to what it was)
+            let with_ticks = rng.chance(1, 2);
+            for j in 0..n {
+                let w = (j % 3) as usize;
+                let t = match (w, at_rest) {
+                    (0, true) => t_long,
+                    (2, false) => t_long,
+                    _ => t_short,
+                };
+                s.set_time(names[w], t);
+                if with_ticks && j % 7 == 0 {
+                    s.tick();
+                }
+            }
+            if at_rest {
+                s.gate_on();
+            } else {
+                s.gate_off();
+            }
+            s.run_phase(4000);
+            s.tick();
+        }
+    }
+}
+
 /// every cell of every curve: increments that visit all 1024 cells, several start levels
 pub fn drive_cells(s: &mut Session, rng: &mut Rng, thorough: bool) {
     // inc = 1024 exactly (fs = 1024 Hz, T = 16 s): 16 logged ticks per cell
@@ -773,6 +824,7 @@ pub fn record(driver: &str, seed: u64, thorough: bool, out: &mut Out) -> Stats {
             drive_retime(&mut s, &mut rng);
             drive_sustain_bounds(&mut s, &mut rng);
             drive_creep(&mut s, &mut rng);
+            drive_write_bursts(&mut s, &mut rng);
         }
         "cells" => drive_cells(&mut s, &mut rng, thorough),
         "extreme" => drive_extreme(&mut s, &mut rng, if thorough { 400 } else { 60 }),
